@@ -1710,15 +1710,19 @@ func (s *bsys) linOf(i int, goalTop bool, depth int) linForm {
 	if c, ok := constInt64(t); ok && c > -inf && c < inf {
 		return linForm{k: c}
 	}
-	if t.K == KBin && (t.S == "+" || t.S == "-") && len(t.A) == 2 && depth < 6 {
+	if t.K == KBin && (t.S == "+" || t.S == "-") && len(t.A) == 2 && depth < 24 {
 		ok := s.exact[t.Key()]
+		sub := false
 		if !ok && goalTop && t.S == "+" {
 			a, b := s.node(t.A[0]), s.node(t.A[1])
 			ok = s.lb(a) >= 0 || s.lb(b) >= 0
+			// a sum of non-negative parts: every partial sum is at most the whole, so the proved bound on the whole
+			// excludes wrap-around of the parts as well
+			sub = s.lb(a) >= 0 && s.lb(b) >= 0
 		}
 		if ok {
-			a := s.linOf(s.node(t.A[0]), false, depth+1)
-			b := s.linOf(s.node(t.A[1]), false, depth+1)
+			a := s.linOf(s.node(t.A[0]), sub, depth+1)
+			b := s.linOf(s.node(t.A[1]), sub, depth+1)
 			if t.S == "+" {
 				return a.addScaled(b, 1)
 			}
@@ -1747,6 +1751,24 @@ func (s *bsys) proveLinear(x, y int, c int64) bool {
 	}
 	// discharge: what remains of the goal after subtracting the chosen facts must follow from single-term ranges
 	closes := func(rest linForm) bool {
+		// a difference of two terms: what the zone knows about it
+		if len(rest.co) == 2 {
+			var xs []int
+			for i := range rest.co {
+				xs = append(xs, i)
+			}
+			a, b := xs[0], xs[1]
+			if rest.co[a] < 0 {
+				a, b = b, a
+			}
+			if c := rest.co[a]; c > 0 && rest.co[b] == -c {
+				if d := s.diffUB(a, b); d < inf && d > -inf && (d == 0 || (c < inf/4 && d < inf/(4*c) && d > -inf/(4*c))) {
+					if c*d+rest.k <= 0 {
+						return true
+					}
+				}
+			}
+		}
 		// rest: sum co*x + k <= 0 to be shown from ranges: max of the left side
 		tot := rest.k
 		for i, co := range rest.co {
